@@ -96,7 +96,15 @@ macro_rules! impl_saturating {
             type Output = Self;
             #[inline]
             fn shl(self, rhs: u32) -> Self {
-                Self(self.0.checked_shl(rhs).unwrap_or(<$t>::MAX))
+                // saturate if a set bit would be shifted out (`checked_shl`
+                // only checks `rhs` against the bit width)
+                Self(if self.0 == 0 {
+                    0
+                } else if self.0.leading_zeros() < rhs {
+                    <$t>::MAX
+                } else {
+                    self.0 << rhs
+                })
             }
         }
 
@@ -107,7 +115,7 @@ macro_rules! impl_saturating {
                 Self(if self.0 == <$t>::MAX {
                     <$t>::MAX
                 } else {
-                    self.0 >> rhs
+                    self.0.checked_shr(rhs).unwrap_or(0)
                 })
             }
         }
